@@ -6,14 +6,14 @@ TEXT = {
     "C09": {
         "level": "Machine-checked proof (24 theorems, unbounded ranks/extents) that the modelled iterators, run/byte-range/extract/chunk computations and subset algebra "
                  "equal their set-theoretic specifications, in any mixture of next/next_back and under every rayon split tree; tied to the code by an exhaustive "
-                 "small-scope correspondence (all shapes/subsets up to rank 3, extents 3) plus large-extent samples, rebuilt from /repo on every run.",
+                 "small-scope correspondence (all shapes/subsets up to rank 3, extents 3) plus large-extent samples, rebuilt from /repo on every run. After an audit of the 146 public functions of the subset/iterator/grid code, every one in scope is called and predicted (ranged iterators for every bound kind incl. inclusive ends beyond the length, rayon paths, the `*_unchecked` twins on their contracts); Props/C09Api proves the ranged iterators enumerate exactly that slice of `indices`.",
         "note": _TB + "rayon's bridge is driven only through Producer::split_at/into_iter.",
         "technique": "Lean 4 theorems on an executable model + exhaustive small-scope differential correspondence",
     },
     "C10": {
         "level": "Machine-checked proof that grids built from any configuration (fixed and varying dimensions, non-zero sizes) partition every compatible array: "
                  "existence+uniqueness of the owning chunk, mutual consistency of origin/shape/subset/chunk-of-element/element-in-chunk, exactness of chunks_in_array_subset, "
-                 "minimality of the grid shape, None outside the grid, metadata round trip; tied to both Rust grid implementations by exhaustive 1-D and sampled N-D correspondence.",
+                 "minimality of the grid shape, None outside the grid, metadata round trip; tied to both Rust grid implementations by exhaustive 1-D and sampled N-D correspondence. The grid-related `Array` methods (chunk_subset[_bounded], chunks_subset[_bounded], chunks_in_array_subset, chunk_origin/shape, built directly, through metadata and after set_shape) are called for every chunk, box and region of small grids and proved to be the trait queries / the union of the box's chunk subsets (Props/C10Api).",
         "note": _TB + "serde round trip of the grid configuration is exercised, not modelled.",
         "technique": "Lean 4 theorems on an executable model + exhaustive small-scope differential correspondence",
     },
@@ -29,7 +29,7 @@ TEXT["C08"] = {
     "level": "Machine-checked proof (19 theorems) that the MemoryStore algorithm (set_impl fast path/resize/truncate, validated ranged reads, strip-and-split list_dir, "
              "erase_prefix) and the generic read-modify-write partial write refine a plain ordered-map specification for every operation and state: slices, zero-extension "
              "without truncation, replacement, exact key/prefix/directory listings; all 11 provided stores and adapters (filesystem +-direct I/O, object_store, opendal sync/async, "
-             "zip, usage-log, performance-metrics) are tied to the same specification by differential operation sequences with the property's tolerance for out-of-bounds reads.",
+             "zip, usage-log, performance-metrics) are tied to the same specification by differential operation sequences with the property's tolerance for out-of-bounds reads. The FilesystemStore algorithm is modelled over a directory tree WITH left-behind empty directories and proved to refine the same map for all 12 operations and every history (Props/C08Fs: fs_refines, fs_history_refines, fs_listDir_ignores_empty_dirs; error cases for clashing keys), and the generic async read-modify-write is proved to give the sequential result under EVERY schedule of its per-key futures (Props/C08Async); both models run beside the specification in the driver (a deterministic suspending store exposes interleavings).",
     "note": _TB + "Third-party back ends and the OS file system are corresponded only; one open finding (stale empty directories in object_store/opendal local-fs listings) is listed in known_findings.jsonl.",
     "technique": "Lean 4 refinement proof to an ordered-map spec + differential operation sequences on 11 stores",
 }
@@ -54,7 +54,7 @@ TEXT["C01"] = {
              "configuration compatible with the shape (C10), after ANY in-bounds history of store_chunk/store_chunks/store_chunk_subset/store_array_subset/erase_chunk/erase_chunks from the empty store, "
              "retrieve_array_subset, retrieve_chunk, retrieve_chunk_subset and retrieve_chunks return element for element the abstract array 'last write wins, erased or never written = fill', "
              "including the overhang of edge chunks. The model is tied to the implementation (12 data types, all registered lossless codecs, both grid kinds, 4 key encodings, 5 store kinds, reopened "
-             "handles) by differential histories, and on every run each read is additionally judged against the abstract array itself.",
+             "handles) by differential histories, and on every run each read is additionally judged against the abstract array itself. The codec hypothesis is DISCHARGED for the byte-level chains `ChainS` (bytes / transposes / checksums / shuffle / `sharding_indexed` nested to any depth): `read_after_history_chainS` states the same conclusion with enc = ChainS.encode, dec = ChainS.decode (Props/C01Chain, via `LosslessOn` valid chunks).",
     "note": _TB + "External compressors enter through the assumed law decode(encode x)=x (exercised, not proved); byte-level layout of decoded chunks (ArrayBytes fixed/variable) is below the element-level model and covered by the correspondence.",
     "technique": "Lean 4 refinement proof (per-chunk invariant, induction over histories) + differential histories judged against model and abstract spec",
 }
@@ -69,7 +69,7 @@ TEXT["C17"] = {
     "level": "Machine-checked proof that for every grid built from a configuration, compatible shape, in-bounds non-empty region and element size the byte ranges written through the per-chunk views of a "
              "multi-chunk read are a permutation of [0, n*es) (every byte exactly once), that one view writes exactly the bytes of its region, and that the executable verdict `tiles` used on recorded maps "
              "is equivalent to that multiset statement; on the real code hook H4 records every view write and every publish site (multi-chunk reads, sharding decode incl. nested, sharded partial decoder, "
-             "cached and sharded-extension reads) and every published buffer is judged by `tiles`.",
+             "cached and sharded-extension reads) and every published buffer is judged by `tiles`. The views of the SHARDED routes are modelled too (Model/WriteMapShard: ShardingCodec::decode / decode_into, the sharding partial decoder, the sharded extension incl. regions overhanging a ragged edge, multi-chunk reads of sharded arrays) and proved to tile every published buffer exactly once at any nesting depth (Props/C17Shard, 14 theorems); for sharded requests the recorded map is compared with the predicted map, not only judged.",
     "note": _TB + "Partial: writes outside ArrayBytesFixedDisjointView (raw pointers, external codecs) are not observable by the model or the hook; memory safety itself is not proved.",
     "technique": "Lean 4 tiling proof (permutation of byte ranges) + recorded write maps judged by a proved-equivalent executable predicate",
 }
@@ -132,7 +132,7 @@ TEXT["C14"] = {
              "round-trip given that serde_json reads back what it wrote (an explicit hypothesis, proved satisfiable by an exact-decimal codec and the correctly rounded reader), and widening to binary64 then narrowing "
              "is the identity for all four formats. Rejection is proved as decision logic: accepted metadata has the data type's JSON kind and size, integers are accepted exactly within range. On the real code every "
              "8-bit pattern, every float16/bfloat16 pattern, boundary-stratified and random 32/64/128-bit patterns go through DataType::metadata_fill_value/serde_json/fill_value_from_metadata and through a stored and "
-             "re-opened array; the text of each finite float is checked to denote the value by the model's correctly rounded decimal reader; ~900 JSON texts of wrong kind/range/malformed x 20 data types are classified.",
+             "re-opened array; the text of each finite float is checked to denote the value by the model's correctly rounded decimal reader; ~900 JSON texts of wrong kind/range/malformed x 20 data types are classified. A finite number whose nearest value of a narrower float type is infinite is rejected (repaired code; float_number_accept / float_number_overflow_rejected).",
     "note": _TB + "serde_json/ryu's decimal writer and reader are third-party code: their round trip is a hypothesis of the float theorems, checked on every generated finite float, not proved. A finite JSON number beyond a float type's range is read as IEEE conversion does (infinity), which the check accepts as the code's documented cast rather than demanding rejection.",
     "technique": "Lean 4 proofs of JSON print/parse inversion, float widening/narrowing and fill-value metadata round trip + exhaustive 8/16-bit and stratified wide differential run",
 }
@@ -175,7 +175,7 @@ TEXT["C07"] = {
              "bytes) return the same elements for every array-subset, chunk and multi-chunk read after every history and after every prefix of it, and with the same key naming store the same set of keys. On the "
              "real code every generated history (the C01 generator: all codecs incl. nested sharding, all grids, data types, elision on/off, one fifth with partial encoding on the sync side) is executed through the "
              "sync methods and through the async_* methods (incl. async partial decoders and re-opening) on stores of identical semantics; each pair of outcomes, the key sets and the readable contents are compared "
-             "with each other and with the C01 model; hierarchy queries (children, child_paths, child_groups/arrays, Node::open, node_exists) are run in both forms over one store and judged by the C13 model.",
+             "with each other and with the C01 model; hierarchy queries (children, child_paths, child_groups/arrays, Node::open, node_exists) are run in both forms over one store and judged by the C13 model. Every method pair found by an audit of the async files (encoded chunks, typed and ndarray forms, multi-chunk stores/erasures, metadata, partial encoders) runs through both APIs, the async side over an immediate adapter AND over stores whose futures suspend a deterministic, key-dependent number of times (completion order differs from issue order).",
     "note": _TB + "Partial: the async executor's interleavings are not enumerated (the order-independence theorem covers completion orders of per-chunk steps on distinct keys; same-key concurrency is C18's subject); error classes are compared as ok/err/none. The async store is an adapter over MemoryStore so that only the API layers differ (object_store rejects zero-length ranges, which is outside C08's contract).",
     "technique": "Lean 4 proofs of completion-order independence and route equivalence + lock-step differential execution of every history through the sync and async APIs",
 }
